@@ -1,5 +1,6 @@
 mod chain;
 mod codec;
+mod socks;
 mod util;
 use util::*;
 
@@ -14,6 +15,7 @@ fn main() {
             let r = match c.first() {
                 Some(9) => codec::run_case(&c[1..]),
                 Some(20) => chain::run_case(&c[1..]),
+                Some(18) => socks::run_case(&c[1..]),
                 _ => vec![999_999],
             };
             out.emit(&c, &r);
@@ -24,6 +26,7 @@ fn main() {
     match which.as_str() {
         "codec" => codec::generate(&a, &mut out),
         "chain" => chain::generate(&a, &mut out),
+        "socks" => socks::generate(&a, &mut out),
         _ => {
             eprintln!("usage: vh-pure <codec|chain|socks> [--seed S] [--n N] [--mode M] [--replay FILE]");
             std::process::exit(2);
